@@ -69,7 +69,7 @@ structure MesgTable where
   guard : Nat
   panics : List Nat
   markBound : Nat
-  /-- the struct has `DeveloperFields` (all but FileId, DeveloperDataId, FieldDescription) -/
+  /-- the struct has `DeveloperFields` (before /repo 72c2963: all but FileId, DeveloperDataId, FieldDescription) -/
   hasDev : Bool
   slots : List Slot
   deriving DecidableEq, Repr, Inhabited
@@ -400,10 +400,12 @@ def nodup : List Nat → Bool
   | a :: as => !as.contains a && nodup as
 
 /-- the table describes a sound generated file: slot numbers are distinct, below the guard, never panic; the guard
-is at most 256… and the bitmap bound covers every eligible number -/
+is at most 256… the bitmap bound covers every eligible number; the struct has `DeveloperFields` (since /repo 72c2963,
+the repair of KF-C13-3, every message type has) -/
 def MesgTable.wf (T : MesgTable) : Bool :=
   T.panics.isEmpty && T.guard ≤ 256 && nodup (T.slots.map (·.num)) &&
-  T.slots.all fun s => s.wf && s.readNum == s.num && s.num < T.guard && (!s.canExpand || s.num < T.markBound)
+  (T.slots.all fun s => s.wf && s.readNum == s.num && s.num < T.guard && (!s.canExpand || s.num < T.markBound)) &&
+  T.hasDev
 
 /-! ### struct → message → struct: what comes back, and the classes of structs on which it is not the struct itself
 
@@ -529,8 +531,8 @@ def inRange (T : MesgTable) (st : Struct) : Bool :=
   wellTyped T st && unknownsOk T st && !hasBoolOther T st && !hasPreEpoch T st && !hasTimeBeyond T st &&
   !hasMarkOnInvalid T st && !hasStrayBit T st
 
-/-- class of the message direction (KF-C13-3): the message carries developer fields and the struct has no
-`DeveloperFields` (FileId, DeveloperDataId, FieldDescription) -/
+/-- class of the message direction (KF-C13-3, repaired in /repo 72c2963): the message carries developer fields and the
+struct has no `DeveloperFields` (formerly FileId, DeveloperDataId, FieldDescription; empty for every well-formed table) -/
 def hasLostDev (T : MesgTable) (m : Message) : Bool := !T.hasDev && !m.devFields.isEmpty
 
 /-- the factory knows every slot of the table under its number and with a name (true of the standard factory:
